@@ -5,7 +5,7 @@ import sqlalchemy as sqa
 from sqlalchemy.dialects.postgresql import aggregate_order_by
 
 from pydiverse.common import Bool, Dtype, Float, Float32, Int, Int32, Int64, String
-from pydiverse.transform._internal.backend.sql import SqlImpl
+from pydiverse.transform._internal.backend.sql import SqlImpl, like_escape, like_operand
 from pydiverse.transform._internal.ops import ops
 from pydiverse.transform._internal.tree import types
 from pydiverse.transform._internal.tree.col_expr import Cast, ColFn
@@ -212,5 +212,5 @@ with PostgresImpl.impl_store.impl_manager as impl:
     @impl(ops.str_contains)
     def _str_contains(x, pattern, allow_regex, true_if_regex_unsupported):
         if not allow_regex:
-            return x.contains(pattern, autoescape=True)
+            return x.contains(like_operand(pattern), **like_escape(pattern))
         return x.op("~")(pattern)
